@@ -175,7 +175,7 @@ Section RunTune.
       match goal with |- context [tune powf ?tu ?i (xexp ?d) ?s] =>
         pose proof (tune_pos tu i d s Hp Ht) as (r & Hr & Hpos) end.
       destruct (accepts _ _); simpl; exists r; auto.
-    - unfold hmc_step. destruct (propagate _ _ _ _ _ _ _ _ _ _) as [[pq pp] tr1].
+    - unfold hmc_step. destruct (propagate _ _ _ _ _ _ _ _ _ _ _) as [[pq pp] tr1].
       match goal with |- context [tune powf ?tu ?i (xexp ?d) ?s] =>
         pose proof (tune_pos tu i d s Hp Ht) as (r & Hr & Hpos) end.
       destruct (accepts _ _); simpl; exists r; auto.
